@@ -13,6 +13,7 @@ package main
 //   namespace.
 
 import (
+	"golang.org/x/tools/go/ssa"
 	"fmt"
 	"go/types"
 	"reflect"
@@ -380,6 +381,54 @@ var rfcLeafText = map[xmlName]bool{
 }
 
 // checkSchema compares every wire struct selected by keep with the oracle.
+// hasMarshalAttrOmittingZero: the type implements xml.MarshalerAttr with a
+// return of the zero xml.Attr (which encoding/xml does not write).
+func hasMarshalAttrOmittingZero(p *Program, t types.Type) bool {
+	n := namedOf(t)
+	if n == nil {
+		return false
+	}
+	for _, ptr := range []bool{false, true} {
+		var rt types.Type = n
+		if ptr {
+			rt = types.NewPointer(n)
+		}
+		sel := p.Prog.MethodSets.MethodSet(rt).Lookup(n.Obj().Pkg(), "MarshalXMLAttr")
+		if sel == nil {
+			continue
+		}
+		fn := p.Prog.MethodValue(sel)
+		if fn == nil || len(fn.Blocks) == 0 {
+			continue
+		}
+		for _, b := range fn.Blocks {
+			ret, ok := b.Instrs[len(b.Instrs)-1].(*ssa.Return)
+			if !ok || len(ret.Results) != 2 {
+				continue
+			}
+			if k, isK := ret.Results[0].(*ssa.Const); isK && k.Value == nil && isNilConst(ret.Results[1]) {
+				return true // zero-value struct constant
+			}
+			if ld, isLd := ret.Results[0].(*ssa.UnOp); isLd {
+				if al, isAl := ld.X.(*ssa.Alloc); isAl {
+					// a local xml.Attr that is never written: the zero value
+					written := false
+					for _, ref := range *al.Referrers() {
+						switch ref.(type) {
+						case *ssa.Store, *ssa.FieldAddr:
+							written = true
+						}
+					}
+					if !written && isNilConst(ret.Results[1]) {
+						return true
+					}
+				}
+			}
+		}
+	}
+	return false
+}
+
 func checkSchema(p *Program, r *RuleResult, keep func(*xmlStruct) bool, strictCard func(*xmlStruct) bool, strictOrder func(*xmlStruct) bool) {
 	for _, xs := range p.wireStructs() {
 		if !keep(xs) {
@@ -427,6 +476,20 @@ func checkSchema(p *Program, r *RuleResult, keep func(*xmlStruct) bool, strictCa
 			fpos := pos
 			switch {
 			case f.Attr:
+				// omitempty on a struct-typed attribute does nothing
+				// (encoding/xml's isEmptyValue knows no structs): an unset
+				// optional attribute is written with its zero value unless
+				// the type leaves it out itself (xml.MarshalerAttr)
+				if f.Omitempty {
+					if st, isStruct := f.Type.Underlying().(*types.Struct); isStruct && st != nil {
+						r.Role("omitempty-attribute-of-struct-type")
+						ok := hasMarshalAttrOmittingZero(p, f.Type)
+						r.Ob(ok)
+						if !ok {
+							r.Violation("ineffective-omitempty|"+xs.Name.String()+"|"+f.Local, fpos, fmt.Sprintf("%s is an optional attribute (omitempty) of a struct type: encoding/xml never considers a struct empty, so an unset value is written as the zero value (a time-range bound in year 1) and an independent reader takes it for a real one; the type must leave the attribute out itself (xml.MarshalerAttr)", f.Label), nil)
+						}
+					}
+				}
 				r.Role("attribute")
 				seenAttr[f.Local] = true
 				ok := allowedAttr[f.Local] && f.Space == ""
